@@ -96,3 +96,38 @@ def check_pickle_hooks(db, chk, rule: str, modname: str, classes: Iterable[str])
         chk.ob(rule, f"{modname}:{cn}: pickled with the default protocol (whole instance state), no state-dropping hook", verdict, mod.loc(cls), found=det or "no pickling hook", accepted="no __getstate__/__reduce__ hook",
                why="a field left out of the pickled state comes back as the class default (e.g. is_blocking False on every restored node)", key=f"{modname}:{cn}|pickle-hooks")
         chk.ob(rule, f"{modname}:{cn}: no __slots__ (default pickling covers every field)", not slots, mod.loc(cls), found=[ast.unparse(s) for s in slots], accepted="none", nontrivial=False)
+
+
+_NARROW = ("int8", "int16", "int32", "uint8", "uint16", "uint32", "uint64", "unsigned", "short", "intc", "ubyte", "ushort", "uintc", "uint", "byte", "Int8", "Int16", "Int32", "UInt8", "UInt16", "UInt32", "UInt64", "float16", "float32", "half", "single")
+_WIDE = ("int64", "int", "Int64", "float64", "float", "double", "object", "int_", "longlong")
+
+
+def _type_name(ty) -> str:
+    if isinstance(ty, tuple) and ty:
+        if ty[0] == "const":
+            return str(ty[1])
+        if ty[0] in ("ext", "attr", "extattr"):
+            return str(ty[-1]).split(".")[-1]
+        if ty[0] == "builtin" or ty[0] == "name":
+            return str(ty[-1])
+    return str(ty)
+
+
+def narrowing_casts(term) -> list:
+    """type names of fixed-width narrow (or unsigned) casts inside a term: such a cast wraps / truncates silently when the data outgrow it"""
+    from ..core import terms as T
+    out = []
+    for s in T.find(term, lambda s: s[0] == "astype" and len(s) == 3):
+        nm = _type_name(s[1])
+        if nm in _NARROW:
+            out.append(nm)
+    return out
+
+
+def strip_wide_casts(term):
+    """law: a cast to a 64-bit / Python numeric type is the identity on the integer-valued columns it is used on here"""
+    if isinstance(term, tuple):
+        if len(term) == 3 and term[0] == "astype" and _type_name(term[1]) in _WIDE:
+            return strip_wide_casts(term[2])
+        return tuple(strip_wide_casts(x) for x in term)
+    return term
